@@ -2,7 +2,7 @@
 cd /verif; mkdir -p /tmp/seedres9 seeded/_incoming9
 one() { p=$1; for k in 1 2; do d=/tmp/seed9/$p/out/$k; [ -f $d/patch.diff ] || continue; mkdir -p seeded/_incoming9/$p-$k; cp $d/patch.diff $d/demo.py $d/meta.json seeded/_incoming9/$p-$k/ 2>/dev/null; python3 tools/seedcheck.py $p seeded/_incoming9/$p-$k --keep-as $p-r9-$k > /tmp/seedres9/$p-$k.json 2>&1; done; }
 export -f one
-echo "$@" | tr ' ' '\n' | xargs -P 5 -I{} bash -c 'one {}'
+echo "$@" | tr ' ' '\n' | xargs -P 8 -I{} bash -c 'one {}'
 for f in /tmp/seedres9/*.json; do python3 - $f <<'PY'
 import json,sys
 t=open(sys.argv[1]).read()
